@@ -8,15 +8,15 @@ rm -rf $wt; mkdir -p /tmp/sc
 git -C /repo worktree add -q --detach $wt HEAD || exit 9
 cd $wt
 res=""
-if ! git apply --check $src/patch.diff 2>/dev/null; then echo "$name: PATCH-DOES-NOT-APPLY"; git -C /repo worktree remove --force $wt; exit 1; fi
-git apply $src/patch.diff
+if ! git apply --3way --check $src/patch.diff 2>/dev/null; then echo "$name: PATCH-DOES-NOT-APPLY"; git -C /repo worktree remove --force $wt; exit 1; fi
+git apply --3way $src/patch.diff >/dev/null 2>&1; git reset -q; git diff > /tmp/sc/$name.rebased.diff
 if go build ./... 2>/dev/null && go test -vet=off -count=1 ./... >/tmp/sc/$name.suite.log 2>&1; then res="suite=pass"; else res="suite=FAIL"; fi
 demo=$(ls $src/*_test.go | head -1)
 demodir=.
 if grep -q "^package main" $demo; then demodir=cmd/jpgo; fi
 cp $demo $demodir/zz_seed_demo_test.go
 if (cd $demodir && go test -vet=off -count=1 -run 'Seed|Demo' . >/tmp/sc/$name.with.log 2>&1); then res="$res demo-with-patch=PASS(bad)"; else res="$res demo-with-patch=fail(good)"; fi
-git apply -R $src/patch.diff
+git checkout -- .
 if (cd $demodir && go test -vet=off -count=1 -run 'Seed|Demo' . >/tmp/sc/$name.without.log 2>&1); then res="$res demo-without=pass(good)"; else res="$res demo-without=FAIL(bad)"; fi
 cd /; git -C /repo worktree remove --force $wt
 echo "$name: $res"
